@@ -169,6 +169,10 @@ def startupStep (st : StartupDrvSt) (op : String) (a : KV) : StartupDrvSt × Str
     | some f =>
       let o := resetD f.cfg f.regs
       (st.setOut f.id o, "ok " ++ suStored o.abs.store)
+  | "su.drop" =>
+    -- the entry leaves the configuration; the database entries of its id stay (the driver keeps the fan's record, ops
+    -- address fans by id and the generator declares the fan again before using it)
+    (st, "ok")
   | "su.putrpm" =>
     match st.find? (a.str "fan" "f1") with
     | none => (st, "bad-op")
